@@ -4,6 +4,7 @@ import (
 	"context"
 	"fmt"
 	enumsspb "go.temporal.io/server/api/enums/v1"
+	"google.golang.org/grpc/credentials/insecure"
 	"io"
 	"os"
 	"runtime"
@@ -68,29 +69,31 @@ type c06Item[T any] struct {
 }
 
 type c06World struct {
-	iniCancelled bool // the initiator's context has been cancelled
-	t            *testing.T
-	mu           sync.Mutex
-	cond         *sync.Cond
-	gateOpen     bool
-	force        bool // end of trace: every fake call returns at once
-	env          c06Env
-	lifetime     context.Context
-	stop         context.CancelFunc
-	srvCancel    context.CancelFunc
-	srv          *c06Srv
-	cli          *c06Cli
-	returned     bool
-	retErr       error
-	seenI        int
-	seenS        int
-	openMD       string
+	stallS, stallI bool // the initiator / the source is not reading: the Send of the s / i relay loop blocks (flow control)
+	iniCancelled   bool // the initiator's context has been cancelled
+	t              *testing.T
+	mu             sync.Mutex
+	cond           *sync.Cond
+	gateOpen       bool
+	force          bool // end of trace: every fake call returns at once
+	env            c06Env
+	lifetime       context.Context
+	stop           context.CancelFunc
+	srvCancel      context.CancelFunc
+	srv            *c06Srv
+	cli            *c06Cli
+	returned       bool
+	retErr         error
+	seenI          int
+	seenS          int
+	openMD         string
 	// monitor state
 	srcPushed   []*repResp
 	iniPushed   []*repReq
 	ending      bool // an ending event was injected (or a Send failed)
 	switchSet   bool // a send-failure switch is on
 	sendFailed  bool // a Send really failed
+	everStalled bool // a peer has been stalled at some point of the trace
 	endedBefore bool // an ending had happened before the current op
 	retSeen     bool // the handler had returned before the current op
 	viol        []map[string]any
@@ -138,6 +141,10 @@ func (s *c06Srv) Send(r *repResp) error {
 	w := s.w
 	w.mu.Lock()
 	defer w.mu.Unlock()
+	// gRPC: Send blocks while the peer does not read, until the stream is done or breaks
+	for w.stallS && !(s.sendFail || s.ctx.Err() != nil || w.force) {
+		w.cond.Wait()
+	}
 	if s.sendFail || s.ctx.Err() != nil || w.force {
 		w.sendFailed = true
 		return errSendBroken
@@ -219,6 +226,9 @@ func (c *c06Cli) Send(r *repReq) error {
 	w := c.w
 	w.mu.Lock()
 	defer w.mu.Unlock()
+	for w.stallI && !(c.sendFail || c.ctx.Err() != nil || c.connClosed() || w.force) {
+		w.cond.Wait()
+	}
 	if c.sendFail || c.ctx.Err() != nil || c.connClosed() || w.force {
 		w.sendFailed = true
 		return errSendBroken
@@ -377,6 +387,23 @@ func c06Roles() string {
 	// only goroutines of the calling bubble count: a goroutine leaked for good by an earlier trace
 	// (excluded environment `hang`) stays in the process; headers read "goroutine 12 [chan send (durable), synctest bubble 7]:"
 	bubble := ""
+	// a listener that is not inside Recv (it holds a value for a relay loop that is busy) is told apart by its creator:
+	// startListener is called by the relay loop's goroutine ("created by …startListener[...] in goroutine N")
+	creatorRole := map[string]string{}
+	for _, g := range strings.Split(string(buf[:n]), "\n\n") {
+		head, _, _ := strings.Cut(g, "\n")
+		f := strings.Fields(head)
+		if len(f) < 2 {
+			continue
+		}
+		switch {
+		case strings.Contains(g, "proxy.(*StreamForwarder).forwardAcks.func1.1("):
+		case strings.Contains(g, "proxy.(*StreamForwarder).forwardAcks(") && !strings.Contains(g, "proxy.startListener["):
+			creatorRole[f[1]] = "LT"
+		case strings.Contains(g, "proxy.(*StreamForwarder).forwardReplicationMessages(") && !strings.Contains(g, "proxy.startListener["):
+			creatorRole[f[1]] = "LS"
+		}
+	}
 	for gi, g := range strings.Split(string(buf[:n]), "\n\n") {
 		head, _, _ := strings.Cut(g, "\n")
 		tag := ""
@@ -412,7 +439,14 @@ func c06Roles() string {
 			case strings.Contains(j, "(*c06Srv).Recv("):
 				count["LT"]++
 			default:
-				count["L?"]++ // a listener that is not inside Recv at quiescence
+				role := "L?" // a listener that is not inside Recv at quiescence
+				if i := strings.LastIndex(g, " in goroutine "); i >= 0 {
+					id := strings.TrimSpace(strings.SplitN(g[i+len(" in goroutine "):], "\n", 2)[0])
+					if r, ok := creatorRole[id]; ok {
+						role = r
+					}
+				}
+				count[role]++
 			}
 		case strings.Contains(j, "proxy.(*adminServiceProxyServer).StreamWorkflowReplicationMessages("):
 			count["H"]++
@@ -473,6 +507,14 @@ func (w *c06World) apply(ev []string) {
 		w.srvCancel()
 		w.ending = true
 		w.iniCancelled = true
+	case key == "stall s": // the initiator stops reading: the s relay loop's Send blocks
+		w.stallS = true
+	case key == "unstall s":
+		w.stallS = false
+	case key == "stall i": // the source stops reading
+		w.stallI = true
+	case key == "unstall i":
+		w.stallI = false
 	case key == "srcsendfail":
 		w.cli.sendFail = true
 		w.switchSet = true
@@ -579,19 +621,35 @@ func (w *c06World) observe(evs [][]string) (string, string) {
 			}
 		}
 	}
-	// (b) while nothing has ended, everything sent has arrived by quiescence
-	if !ending && !switchSet && (len(gotI) != len(w.srcPushed) || len(gotS) != len(w.iniPushed)) {
+	w.mu.Lock()
+	stalled := w.stallS || w.stallI
+	stallS, stallI := w.stallS, w.stallI
+	w.mu.Unlock()
+	if stalled {
+		w.everStalled = true
+	}
+	// (b) while nothing has ended, everything sent has arrived by quiescence (unless a peer is not reading)
+	if !ending && !switchSet && !stalled && (len(gotI) != len(w.srcPushed) || len(gotS) != len(w.iniPushed)) {
 		w.violation(fmt.Sprintf("nothing has ended, yet at quiescence %d/%d replication messages and %d/%d sync-states have arrived", len(gotI), len(w.srcPushed), len(gotS), len(w.iniPushed)))
 	}
 	// (b') a burst on ONE direction that ends with that peer's own ending: every message queued before the ending arrives
-	if evs != nil && !w.endedBefore {
+	if evs != nil && !w.endedBefore && !w.everStalled {
 		w.monitorOneSided(evs, newI, newS)
 	}
 	w.endedBefore = ending
 	// (c) after any ending: handler returned, CloseSend attempted, client context cancelled, no worker left
 	if ending && w.env.grpcStreamEnv() {
 		if !ret || !closeSend || !ctxc || alive != "-" {
-			w.violation(fmt.Sprintf("a side has ended but the stream did not end together: handlerReturned=%v closeSend=%v ctxCancelled=%v alive=%s", ret, closeSend, ctxc, alive))
+			what := fmt.Sprintf("a side has ended but the stream did not end together: handlerReturned=%v closeSend=%v ctxCancelled=%v alive=%s", ret, closeSend, ctxc, alive)
+			// recorded finding: the relay loop of the OTHER direction is blocked in Send to a peer that is not reading (it can see
+			// neither its listener nor the latch), and nobody has cancelled a context that would make that Send return
+			blockedS := stallS && strings.Contains(alive, "FR")
+			blockedI := stallI && strings.Contains(alive, "FA")
+			if (blockedS || blockedI) && !w.iniCancelled && !ret {
+				w.viol = append(w.viol, map[string]any{"what": what + " (a relay loop is blocked in Send to a peer that is not reading)", "finding": "C06-blocked-send-hides-ending"})
+			} else {
+				w.violation(what)
+			}
 		}
 	}
 	// (c') the initiator's context was cancelled: the stream towards the source lives in a context derived from it, so it is
@@ -831,7 +889,7 @@ func runC06E2E(t *testing.T, e *Env, transport, ending string, answers bool) (st
 		waitFor(20*time.Second, func() bool { return len(x.iniGot) == int(i) && len(x.srcGot) == int(i) })
 	}
 	// the goroutine detector must see the running stream (otherwise "alive=-" below would mean nothing)
-	if r := c06Roles(); !(strings.Contains(r, "H") && strings.Contains(r, "FA") && strings.Contains(r, "FR") && strings.Count(r, "L?") == 2) {
+	if r := c06Roles(); !(strings.Contains(r, "H") && strings.Contains(r, "FA") && strings.Contains(r, "FR") && strings.Count(r, "L?")+strings.Count(r, "LS")+strings.Count(r, "LT") == 2) {
 		t.Fatalf("goroutine detector does not see the running forwarder: %s", r)
 	}
 	switch ending {
@@ -879,6 +937,128 @@ func runC06E2E(t *testing.T, e *Env, transport, ending string, answers bool) (st
 	}
 	obs := fmt.Sprintf("I=[%s] S=[%s] iniEnded=%v srcEnded=%v alive=%s", ji(x.iniGot), ji(x.srcGot), x.iniEnded, x.srcEnded, alive)
 	return obs, ok && alive == "-" && len(x.iniGot) == 2 && len(x.srcGot) == 2
+}
+
+// runC06StalledReal: real gRPC on loopback. The initiator opens the stream with a small flow-control window and does NOT
+// read; the source sends large messages until the proxy's Send towards the initiator blocks; then the source ends (EOF).
+// Phase 1 (3 s): has the stream ended together although the initiator is not reading? Phase 2: the initiator reads again —
+// now everything must end. Returns (observation, stuckWhileStalled, endedAfterResume).
+func runC06StalledReal(t *testing.T) (string, bool, bool) {
+	p, err := startProxyPair(t, config.ClusterConnConfig{})
+	if err != nil {
+		t.Fatalf("startProxyPair: %v", err)
+	}
+	defer p.Stop()
+	var mu sync.Mutex
+	srcEnded, iniEnded := false, false
+	srcSent := 0
+	ready, goOn := make(chan struct{}, 1), make(chan struct{})
+	p.Remote.Stream = func(method string, md metadata.MD, ss grpc.ServerStream) error {
+		defer func() { mu.Lock(); srcEnded = true; mu.Unlock() }()
+		go func() {
+			for {
+				if err := ss.RecvMsg(&repReq{}); err != nil {
+					return
+				}
+			}
+		}()
+		ready <- struct{}{}
+		<-goOn
+		for i := int64(1); i <= 400; i++ { // up to 400 x 64 KiB: far beyond every window on the way
+			m := c06Msg(i)
+			m.GetMessages().ReplicationTasks[0].RawTaskInfo.WorkflowId = strings.Repeat("x", 64<<10)
+			sent := make(chan error, 1)
+			go func() { sent <- ss.SendMsg(m) }()
+			select {
+			case err := <-sent:
+				if err != nil {
+					return err
+				}
+				mu.Lock()
+				srcSent++
+				mu.Unlock()
+			case <-time.After(1500 * time.Millisecond):
+				return nil // the pipe is full (our own Send blocks): the source ends its side — EOF behind what is in flight
+			}
+		}
+		return nil
+	}
+	conn, err := grpc.NewClient(p.OutboundAddr, grpc.WithTransportCredentials(insecure.NewCredentials()),
+		grpc.WithInitialWindowSize(64<<10), grpc.WithInitialConnWindowSize(64<<10)) // fixed windows: no dynamic growth
+	if err != nil {
+		t.Fatal(err)
+	}
+	defer conn.Close()
+	ctx, cancel := context.WithCancel(metadata.NewOutgoingContext(context.Background(), streamMD(1, 1, 2, 1)))
+	defer cancel()
+	st, err := conn.NewStream(ctx, &grpc.StreamDesc{ServerStreams: true, ClientStreams: true}, adminStreamMethod)
+	if err != nil {
+		t.Fatalf("open stream through the proxy: %v", err)
+	}
+	if err := st.SendMsg(c06Ack(1)); err != nil {
+		t.Fatalf("initiator send: %v", err)
+	}
+	select {
+	case <-ready:
+	case <-time.After(20 * time.Second):
+		t.Fatalf("the proxy never opened the stream to the source")
+	}
+	close(goOn) // the source starts sending; the initiator does not read
+	streamRoles := func() string {
+		var roles []string
+		for _, r := range strings.Split(c06Roles(), ",") {
+			if r != "?" && r != "-" {
+				roles = append(roles, r)
+			}
+		}
+		if len(roles) == 0 {
+			return "-"
+		}
+		return strings.Join(roles, ",")
+	}
+	// wait until the source has ended its side
+	for end := time.Now().Add(60 * time.Second); time.Now().Before(end); time.Sleep(20 * time.Millisecond) {
+		mu.Lock()
+		done := srcEnded
+		mu.Unlock()
+		if done {
+			break
+		}
+	}
+	time.Sleep(3 * time.Second)
+	aliveStalled := streamRoles()
+	mu.Lock()
+	sentN, srcDone := srcSent, srcEnded
+	mu.Unlock()
+	// phase 2: the initiator reads again
+	got := 0
+	go func() {
+		for {
+			if err := st.RecvMsg(&repResp{}); err != nil {
+				mu.Lock()
+				iniEnded = true
+				mu.Unlock()
+				return
+			}
+			mu.Lock()
+			got++
+			mu.Unlock()
+		}
+	}()
+	aliveAfter := "?"
+	for end := time.Now().Add(30 * time.Second); time.Now().Before(end); time.Sleep(20 * time.Millisecond) {
+		aliveAfter = streamRoles()
+		mu.Lock()
+		ie := iniEnded
+		mu.Unlock()
+		if aliveAfter == "-" && ie {
+			break
+		}
+	}
+	mu.Lock()
+	defer mu.Unlock()
+	obs := fmt.Sprintf("source sent %d x 64 KiB and ended=%v; while the initiator was not reading: alive=%s; after it read again (%d messages): iniEnded=%v alive=%s", sentN, srcDone, aliveStalled, got, iniEnded, aliveAfter)
+	return obs, srcDone && aliveStalled != "-", iniEnded && aliveAfter == "-"
 }
 
 func TestC06(t *testing.T) {
@@ -935,6 +1115,23 @@ func TestC06(t *testing.T) {
 		}
 	}
 
+	// ---- real gRPC, an initiator that stops reading (flow control) while the source ends: the demonstration of finding
+	// C06-blocked-send-hides-ending on the real transport, and the check that everything ends once the initiator reads again
+	{
+		obs, stuck, ended := runC06StalledReal(t)
+		op := "# e2e-stalled-initiator tcp"
+		e.Emit(op+"  => "+obs, "#")
+		e.Evals++
+		e.Count(fmt.Sprintf("e2e_stalled_initiator_stuck_%v", stuck))
+		if stuck {
+			e.Violation(map[string]any{"what": "real gRPC: the source ended while the proxy's Send towards an initiator that is not reading was blocked; the stream did not end together: " + obs,
+				"finding": "C06-blocked-send-hides-ending", "ops": []string{op}})
+		}
+		if !ended {
+			e.Violation(map[string]any{"what": "real gRPC: the initiator reads again after a stall during which the source ended, and the stream still does not end together: " + obs, "ops": []string{op}})
+		}
+	}
+
 	kinds := [][]string{{"src eof"}, {"src err"}, {"src unknown"}, {"ini eof"}, {"ini err"}, {"ini cancel"}, {"ini unknown"},
 		{"srcsendfail", "ini ack %d"}, {"inisendfail", "src msg %d"}, {"shutdown"}}
 	begins := []string{"begin default 1 1 2 1 answers", "begin default 2 7 1 3 ignores", "begin lcm:6:3 1 2 2 5 answers", "begin lcm:12:4 2 3 1 11 ignores"}
@@ -988,6 +1185,41 @@ func TestC06(t *testing.T) {
 							run(ops)
 							e.Count("trace_exhaustive_burst")
 						}
+					}
+				}
+			}
+		}
+	}
+	// ---- a peer that stops reading (flow control): the relay loop towards it blocks in Send with a message in hand, then
+	// either side ends in every way, then the peer reads again. While the Send is blocked the loop sees neither its listener
+	// nor the latch (recorded finding C06-blocked-send-hides-ending); a cancelled context makes the Send return; once the
+	// peer reads again everything must end together.
+	for _, begin := range begins[:2] {
+		for _, d := range []string{"s", "i"} {
+			for _, kind := range kinds {
+				for n := 0; n <= 1; n++ {
+					for _, stallFirst := range []bool{true, false} {
+						var ending []string
+						for _, k := range kind {
+							if strings.Contains(k, "%d") {
+								k = fmt.Sprintf(k, 900)
+							}
+							ending = append(ending, k)
+						}
+						fill := "src msg 800"
+						if d == "i" {
+							fill = "ini ack 801"
+						}
+						ops := append([]string{begin}, pre(n, n, 0)...)
+						if stallFirst {
+							ops = append(ops, "stall "+d, fill)
+						} else {
+							ops = append(ops, fill, "stall "+d, fill[:len(fill)-1]+"2")
+						}
+						ops = append(ops, ending...)
+						ops = append(ops, "tick", "src msg 950", "ini ack 960", "unstall "+d, "tick", "src msg 951")
+						run(ops)
+						e.Count("trace_stalled_peer")
 					}
 				}
 			}
